@@ -69,6 +69,7 @@ DECIDE = 1e-2
 
 def required(tier):
     b = {f'kind:{k}': 50 for k in KINDS}
+    b.update({'probe:desync-reset': 10, 'probe:desync-add': 10, 'probe:desync-set': 10, 'probe:same-callable-twice': 10})
     b.update({f't0:{k}': 20 for k in T0})
     b.update({f'hist:{k}': 50 for k in HIST})
     b.update({f'comp:{k}': 20 for k in COMP})
@@ -296,6 +297,7 @@ def gen_cases(seed, tier):
         cases.append(dict(kind=kind, asc=asc, t0_class=t0c, t0=t0, hist=hist, comp=comp, fs=fs, fch1=fch1,
                           fs_q=bool(rng.random() < 0.4), fch1_q=bool(rng.random() < 0.4), seedform=seedform,
                           seed=int(rng.integers(2 ** 31)), srcs=srcs, ops=ops))
+    cases.extend(_probe_cases(rng, tier))
     return cases
 
 
@@ -560,7 +562,83 @@ def _compare(obs, want, bound):
     return err, bad
 
 
+def _probe_cases(rng, tier):
+    out = []
+    for i in range(120 if tier == 'quick' else 6000):
+        out.append(dict(kind='probe', what=['desync-reset', 'desync-add', 'desync-set', 'same-callable-twice'][i % 4],
+                        fs=float(common.pick(rng, [48000.0, 1e6, 2.4e9, 3e9])), asc=bool((i // 4) % 2),
+                        t0=float(common.pick(rng, [0.0, 1.5, 1e3])), n1=int(rng.integers(1, 400)), m=int(rng.integers(1, 300)),
+                        n2=int(rng.integers(2, 400)), dt_add=float(common.pick(rng, [0.25, 1e-3, 7.0])), reps=int(rng.integers(2, 4)),
+                        pols=int(1 + (i // 8) % 2), off=float(rng.uniform(0.05, 0.4)), drift_frac=float(rng.uniform(-1, 1)),
+                        sub=int(rng.integers(2 ** 31))))
+    return out
+
+
+def run_probe(c, R):
+    """Histories the main workload does not contain: one polarisation stream of an antenna sampled on its own before a clock
+    operation on the antenna; the very same callable registered several times as a custom source."""
+    stg = common.import_setigen()
+    v = stg.voltage
+    R.bucket('probe:' + c['what'])
+    fs = c['fs']
+    fch1 = 1e9
+    sgn = 1.0 if c['asc'] else -1.0
+
+    def furnish(a):
+        for k, st in enumerate(a.streams):
+            st.add_constant_signal(f_start=fch1 + sgn * c['off'] * fs / 2 * (1 + 0.1 * k), drift_rate=c['drift_frac'] * fs * 1e-3,
+                                   level=1.0 + k, phase=0.3 * (k + 1))
+    if c['what'] == 'same-callable-twice':
+        st = v.DataStream(sample_rate=fs, fch1=fch1, ascending=c['asc'], t_start=c['t0'], seed=c['sub'])
+        table = np.random.default_rng(c['sub']).normal(size=c['n1'] + c['n2'] + 5)
+
+        def src(ts, _t0=c['t0']):
+            k = np.rint((np.asarray(ts) - _t0) * fs).astype(int)
+            return table[np.clip(k, 0, len(table) - 1)]
+        for _ in range(c['reps']):
+            st.add_signal(src)
+        got = np.concatenate([np.asarray(st.get_samples(c['n1'])), np.asarray(st.get_samples(c['n2']))])
+        want = c['reps'] * table[:c['n1'] + c['n2']]
+        R.check(got.shape == want.shape and bool(np.all(np.abs(got - want) <= 1e-12 * np.maximum(1.0, np.abs(want)))),
+                'custom-source-registered-several-times-not-summed-each-time', reps=c['reps'],
+                ratio=float(np.median(got / np.where(want == 0, 1, want))))
+        R.mark_nontrivial(True)
+        return
+    ant = v.Antenna(sample_rate=fs, fch1=fch1, ascending=c['asc'], num_pols=c['pols'], t_start=c['t0'], seed=c['sub'])
+    furnish(ant)
+    ant.get_samples(c['n1'])
+    ant.x.get_samples(c['m'])                    # one polarisation read on its own: its clock runs ahead of the antenna's
+    if c['what'] == 'desync-reset':
+        ant.reset_start()
+        t_exp = c['t0'] + c['n1'] / fs
+    elif c['what'] == 'desync-add':
+        ant.add_time(c['dt_add'])
+        t_exp = c['t0'] + c['n1'] / fs + c['dt_add']
+    else:
+        t_exp = c['t0'] + 12.5
+        ant.set_time(t_exp)
+    tol = 8 * np.spacing(abs(t_exp) + 1.0)
+    R.check(abs(float(ant.t_start) - t_exp) <= tol, 'clock:antenna:after-clock-op-following-a-direct-stream-request',
+            got=float(ant.t_start), want=t_exp)
+    for k, st in enumerate(ant.streams):
+        R.check(abs(float(st.t_start) - float(ant.t_start)) <= tol,
+                'antenna-clock-differs-from-streams:after-clock-op-following-a-direct-stream-request', pol=k,
+                stream=float(st.t_start), antenna=float(ant.t_start), op=c['what'])
+    out = np.asarray(ant.get_samples(c['n2']))
+    fresh = v.Antenna(sample_rate=fs, fch1=fch1, ascending=c['asc'], num_pols=c['pols'], t_start=float(ant.t_start) - c['n2'] / fs, seed=c['sub'])
+    furnish(fresh)
+    ref_out = np.asarray(fresh.get_samples(c['n2']))
+    # same closed form evaluated at (nearly) the same instants by a fresh antenna started at the antenna's clock
+    slack = 2 * np.pi * (c['off'] * fs / 2 * 1.2 + abs(c['drift_frac']) * fs * 1e-3 * (abs(t_exp) + 1)) * 16 * np.spacing(abs(t_exp) + 1.0) * 3 + 1e-9
+    R.check(out.shape == ref_out.shape and bool(np.all(np.abs(out - ref_out) <= slack)),
+            'samples-after-clock-op-following-a-direct-stream-request-on-wrong-timeline', op=c['what'],
+            maxerr=float(np.max(np.abs(out - ref_out))) if out.shape == ref_out.shape else None, slack=slack)
+    R.mark_nontrivial(True)
+
+
 def run_case(c, R):
+    if c['kind'] == 'probe':
+        return run_probe(c, R)
     stg = common.import_setigen()
     from astropy import units as u
     if np.finfo(LD).eps > 1e-18:
